@@ -1,6 +1,7 @@
 (** C13 case type, correspondence check (IncludeIpsNode.__init__ vs Model/Ips.v read_ips) and
     spec oracle (the same file read by the independent record parser of Spec/IpsFormat.v). *)
 From A816 Require Export Spec.IpsFormat Model.Ips Oracle.Obs.
+From A816 Require Oracle.Coreo.
 Open Scope Z_scope.
 
 Definition runs := list (Z * Z).
@@ -12,7 +13,11 @@ Fixpoint expand_runs (rs : runs) : bytes :=
 
 (** IncludeIpsNode(path-of-[file], Resolver(), delta).blocks, or the exception. *)
 Inductive case :=
-| CR (file : runs) (delta : Z) (impl : obs (list (Z * runs))).
+| CR (file : runs) (delta : Z) (impl : obs (list (Z * runs)))
+(** the directive placed inside a program: whole-assembly correspondence + the writer-protocol
+    oracle of Oracle/Coreo.v (the records go out where the directive stands, at their offsets, and
+    the surrounding program's blocks and offsets are what they are without it) *)
+| CP (c : Coreo.ccase).
 
 Definition write_eqb (x y : Z * bytes) : bool := (fst x =? fst y) && bytes_eqb (snd x) (snd y).
 Definition blocks_eqb : list (Z * bytes) -> list (Z * bytes) -> bool := list_eqb write_eqb.
@@ -35,13 +40,19 @@ Definition spec_ok (file : bytes) (delta : Z) (impl : obs (list (Z * bytes))) : 
   | _ => obs_is_err impl
   end.
 
-Definition check (c : case) : bool * bool :=
-  let '(CR rfile delta rimpl) := c in
-  let file := expand_runs rfile in
-  let impl := obs_map (map (fun b => (fst b, expand_runs (snd b)))) rimpl in
-  (agree_strict blocks_eqb (read_ips delta file) impl, spec_ok file delta impl).
+Definition check (t : Asmo.tables) (c : case) : bool * bool :=
+  match c with
+  | CR rfile delta rimpl =>
+      let file := expand_runs rfile in
+      let impl := obs_map (map (fun b => (fst b, expand_runs (snd b)))) rimpl in
+      (agree_strict blocks_eqb (read_ips delta file) impl, spec_ok file delta impl)
+  | CP cc => Coreo.check t cc
+  end.
 
-Definition model_view (c : case) : res (list (Z * Z)) :=
-  let '(CR rfile delta _) := c in
-  do bl <- read_ips delta (expand_runs rfile);
-  Ok (map (fun b => (fst b, Z.of_nat (length (snd b)))) bl).
+Definition model_view (t : Asmo.tables) (c : case) : res (list (Z * Z)) + res Asmo.asmobs :=
+  match c with
+  | CR rfile delta _ =>
+      inl (do bl <- read_ips delta (expand_runs rfile);
+           Ok (map (fun b => (fst b, Z.of_nat (length (snd b)))) bl))
+  | CP cc => inr (Coreo.model_view t cc)
+  end.
